@@ -104,7 +104,8 @@ where
     cases.push(("header-absent".into(), m.clone(), None, pkb.to_vec(), sb.to_vec()));
     cases.push(("header-empty".into(), m.clone(), Some(vec![]), pkb.to_vec(), sb.to_vec()));
     cases.push(("other-pk".into(), m.clone(), Some(HEADER.to_vec()), pk2b.to_vec(), sb.to_vec()));
-    let step = if thorough { 1 } else { 5 };
+    let step = 1;
+    let _ = thorough;
     let mut i = 0;
     while i < 640 {
         let mut s2 = sb.to_vec();
@@ -347,6 +348,21 @@ where
     }
     alts.push(("commitment-truncated-scalar".into(), cb[..cb.len() - 32].to_vec()));
     alts.push(("commitment-extended-scalar".into(), [cb.clone(), cb[cb.len() - 32..].to_vec()].concat()));
+    // a commitment to no messages still carries a proof of knowledge of the blind factor
+    let (com0, _b0) = Com::<CS>::commit(None).unwrap();
+    let c0 = com0.to_bytes();
+    let mut i0 = 384;
+    while i0 < c0.len() * 8 {
+        let mut v = c0.clone();
+        v[i0 / 8] ^= 1 << (i0 % 8);
+        alts.push((format!("empty-commitment-proof-bitflip-{i0}"), v));
+        i0 += if thorough { 1 } else { 5 };
+    }
+    alts.push(("one-message-proof-truncated-to-no-message-shape".into(), {
+        let (c1, _b1) = Com::<CS>::commit(Some(&[b"one".to_vec()])).unwrap();
+        let b = c1.to_bytes();
+        b[..b.len() - 32].to_vec()
+    }));
     let (com_other, _b2) = Com::<CS>::commit(Some(&[b"other".to_vec(), b"msgs".to_vec()])).unwrap();
     let ob = com_other.to_bytes();
     let mut spliced = cb.clone();
@@ -440,40 +456,124 @@ where
     }
 }
 
-/// C07: two generations from identical inputs must not repeat points / responses (production randomness path)
+/// C07: blinding scalars recomputed by a party who knows the witness (e~ = e^ - e*c, m~_j = m^_j - m_j*c,
+/// s~ = s^ - blind*c) are non-zero and pairwise distinct within and across transcripts; points and
+/// blind factors / random keys do not repeat across runs (production randomness path).
 pub fn fresh<CS: BbsCiphersuite>(name: &str, out: &mut Vec<Value>)
 where
     CS::Expander: for<'a> ExpandMsg<'a>,
 {
+    use bls12_381_plus::Scalar;
+    let sc = |b: &[u8]| -> Scalar { Scalar::from_be_bytes(&<[u8; 32]>::try_from(b).unwrap()).unwrap() };
     let kp = KP::<CS>::generate(IKM, None, None).unwrap();
-    let m = msgs(3);
-    let sig = Sig::<CS>::sign(Some(&m), kp.private_key(), kp.public_key(), Some(HEADER)).unwrap();
-    let mut chunks: std::collections::HashSet<Vec<u8>> = std::collections::HashSet::new();
-    let mut repeated = 0usize;
+    let mut seen: std::collections::HashSet<Vec<u8>> = std::collections::HashSet::new();
+    let mut problems: Vec<String> = vec![];
     let mut total = 0usize;
-    for _ in 0..6 {
-        let p = Pok::<CS>::proof_gen(kp.public_key(), &sig.to_bytes(), Some(HEADER), Some(PH), Some(&m), Some(&[1usize])).unwrap().to_bytes();
-        let mut parts: Vec<Vec<u8>> = vec![p[0..48].to_vec(), p[48..96].to_vec(), p[96..144].to_vec()];
-        let mut o = 144;
-        while o + 32 <= p.len() { parts.push(p[o..o + 32].to_vec()); o += 32; }
-        for q in parts { total += 1; if !chunks.insert(q) { repeated += 1; } }
+    let mut note = |what: String, v: Vec<u8>, seen: &mut std::collections::HashSet<Vec<u8>>, problems: &mut Vec<String>, total: &mut usize| {
+        *total += 1;
+        if v.iter().all(|b| *b == 0) {
+            problems.push(format!("{what} is zero"));
+        }
+        if !seen.insert(v) {
+            problems.push(format!("{what} repeats an earlier point/scalar"));
+        }
+    };
+    for l in [3usize, 20, 40] {
+        let m = msgs(l);
+        let ms = BBSplusMessage::messages_to_scalar::<CS>(&m, CS::API_ID).unwrap();
+        let sig = Sig::<CS>::sign(Some(&m), kp.private_key(), kp.public_key(), Some(HEADER)).unwrap();
+        let e = sc(&sig.to_bytes()[48..80]);
+        for run in 0..2 {
+            let p = Pok::<CS>::proof_gen(kp.public_key(), &sig.to_bytes(), Some(HEADER), Some(PH), Some(&m), None).unwrap().to_bytes();
+            let c = sc(&p[p.len() - 32..]);
+            for (k, nm) in [(0usize, "Abar"), (48, "Bbar"), (96, "D")] {
+                note(format!("L={l} run={run} {nm}"), p[k..k + 48].to_vec(), &mut seen, &mut problems, &mut total);
+            }
+            let e_tilde = sc(&p[144..176]) - e * c;
+            note(format!("L={l} run={run} e~"), e_tilde.to_be_bytes().to_vec(), &mut seen, &mut problems, &mut total);
+            note(format!("L={l} run={run} r1^"), p[176..208].to_vec(), &mut seen, &mut problems, &mut total);
+            note(format!("L={l} run={run} r3^"), p[208..240].to_vec(), &mut seen, &mut problems, &mut total);
+            for j in 0..l {
+                let m_cap = sc(&p[240 + 32 * j..272 + 32 * j]);
+                let m_tilde = m_cap - ms[j].value * c;
+                note(format!("L={l} run={run} m~_{j}"), m_tilde.to_be_bytes().to_vec(), &mut seen, &mut problems, &mut total);
+                // the encoding must not contain a hidden message scalar, A or e
+                if p[240 + 32 * j..272 + 32 * j] == ms[j].value.to_be_bytes() {
+                    problems.push(format!("L={l} run={run}: proof contains hidden message scalar {j}"));
+                }
+            }
+        }
     }
-    for _ in 0..6 {
-        let (c, b) = Com::<CS>::commit(Some(&m)).unwrap();
-        let cb = c.to_bytes();
-        let mut parts: Vec<Vec<u8>> = vec![cb[0..48].to_vec(), b.to_bytes().to_vec()];
-        let mut o = 48;
-        while o + 32 <= cb.len() { parts.push(cb[o..o + 32].to_vec()); o += 32; }
-        for q in parts { total += 1; if !chunks.insert(q) { repeated += 1; } }
+    for mm in [2usize, 20] {
+        let cm = msgs(mm);
+        let cms = BBSplusMessage::messages_to_scalar::<CS>(&cm, CS::API_ID_BLIND).unwrap();
+        for run in 0..2 {
+            let (c, b) = Com::<CS>::commit(Some(&cm)).unwrap();
+            let cb = c.to_bytes();
+            let ch = sc(&cb[cb.len() - 32..]);
+            let blind = sc(&b.to_bytes());
+            note(format!("M={mm} run={run} C"), cb[0..48].to_vec(), &mut seen, &mut problems, &mut total);
+            note(format!("M={mm} run={run} secret_prover_blind"), b.to_bytes().to_vec(), &mut seen, &mut problems, &mut total);
+            let s_tilde = sc(&cb[48..80]) - blind * ch;
+            note(format!("M={mm} run={run} s~"), s_tilde.to_be_bytes().to_vec(), &mut seen, &mut problems, &mut total);
+            for j in 0..mm {
+                let m_tilde = sc(&cb[80 + 32 * j..112 + 32 * j]) - cms[j].value * ch;
+                note(format!("M={mm} run={run} m~_{j}"), m_tilde.to_be_bytes().to_vec(), &mut seen, &mut problems, &mut total);
+            }
+        }
     }
-    for _ in 0..4 {
+    for run in 0..4 {
         let k = KP::<CS>::random().unwrap();
-        total += 1;
-        if !chunks.insert(k.private_key().to_bytes().to_vec()) { repeated += 1; }
+        note(format!("run={run} random sk"), k.private_key().to_bytes().to_vec(), &mut seen, &mut problems, &mut total);
         let bf = BlindFactor::random();
-        total += 1;
-        if !chunks.insert(bf.to_bytes().to_vec()) { repeated += 1; }
+        note(format!("run={run} BlindFactor::random"), bf.to_bytes().to_vec(), &mut seen, &mut problems, &mut total);
     }
-    let outcome = if repeated == 0 { "ok:accepted".to_string() } else { format!("err:{repeated} of {total} points/scalars repeated across generations") };
-    push(out, format!("{name}-fresh"), "repeated generations from identical inputs", vec![format!("{total} elements")], outcome, "expect-ok");
+    let outcome = if problems.is_empty() { "ok:accepted".to_string() } else { format!("err:{} of {} recomputed blindings/points bad: {}", problems.len(), total, problems[..problems.len().min(4)].join("; ")) };
+    push(out, format!("{name}-fresh"), "witness-side recomputation of blindings over repeated generations", vec![format!("{total} elements")], outcome, "expect-ok");
+}
+
+/// C11 / C10: generator derivation — absent api_id == empty api_id, prefix consistency, no identity / P1 /
+/// repetition, disjointness across api ids (both suites, plain / blind / "BLIND_" prefixed).
+pub fn generators<CS: BbsCiphersuite>(name: &str, out: &mut Vec<Value>, thorough: bool)
+where
+    CS::Expander: for<'a> ExpandMsg<'a>,
+{
+    use elliptic_curve::group::Curve;
+    use zkryptium::bbsplus::generators::Generators;
+    let n = if thorough { 40 } else { 12 };
+    let enc = |g: &Generators| -> Vec<Vec<u8>> { g.values.iter().map(|p| p.to_affine().to_compressed().to_vec()).collect() };
+    let blind_prefixed = [b"BLIND_".as_slice(), CS::API_ID_BLIND].concat();
+    let ids: Vec<(&str, Option<Vec<u8>>)> = vec![("none", None), ("empty", Some(vec![])), ("API_ID", Some(CS::API_ID.to_vec())), ("API_ID_BLIND", Some(CS::API_ID_BLIND.to_vec())), ("BLIND_||API_ID_BLIND", Some(blind_prefixed))];
+    let mut sets: Vec<(String, Vec<Vec<u8>>)> = vec![];
+    for (idn, id) in ids.iter() {
+        let full = Generators::create::<CS>(n, id.as_deref());
+        let e = enc(&full);
+        let p1 = full.g1_base_point.to_affine().to_compressed().to_vec();
+        let mut problems: Vec<String> = vec![];
+        let mut identity = vec![0u8; 48];
+        identity[0] = 0xc0;
+        for (k, g) in e.iter().enumerate() {
+            if *g == identity { problems.push(format!("generator {k} is the identity")); }
+            if *g == p1 { problems.push(format!("generator {k} equals P1")); }
+            if e[..k].contains(g) { problems.push(format!("generator {k} repeats")); }
+        }
+        for k in [0usize, 1, 2, n / 2, n - 1] {
+            let pre = enc(&Generators::create::<CS>(k, id.as_deref()));
+            if pre[..] != e[..k] { problems.push(format!("create({k}) is not a prefix of create({n})")); }
+        }
+        let outcome = if problems.is_empty() { "ok:accepted".to_string() } else { format!("err:{}", problems[..problems.len().min(3)].join("; ")) };
+        push(out, format!("{name}-generators-{idn}"), "Generators::create", vec![format!("n={n}"), idn.to_string()], outcome, "expect-ok");
+        sets.push((idn.to_string(), e));
+    }
+    // absent == empty; every other pair of api ids gives disjoint sets
+    for i in 0..sets.len() {
+        for j in (i + 1)..sets.len() {
+            let same_expected = (sets[i].0 == "none" && sets[j].0 == "empty");
+            let overlap = sets[i].1.iter().any(|g| sets[j].1.contains(g));
+            let equal = sets[i].1 == sets[j].1;
+            let outcome = if same_expected { if equal { "ok:accepted".to_string() } else { "err:create(n, None) != create(n, Some(\"\"))".to_string() } }
+                else if overlap { format!("err:generator sets of api ids {} and {} overlap", sets[i].0, sets[j].0) } else { "ok:accepted".to_string() };
+            push(out, format!("{name}-generators-{}-vs-{}", sets[i].0, sets[j].0), "Generators::create pair", vec![], outcome, "expect-ok");
+        }
+    }
 }
